@@ -449,6 +449,9 @@ def gen_case(rng):
     if rng.random() < 0.2:
         for s_ in series:        # genuine NaN observations: rows of the stitched frame like any other
             s_['cols'] = [[None if rng.random() < 0.25 else v for v in s_['cols'][0]]]
+    if rng.random() < 0.12:
+        for s_ in series:        # infinite observations too ('inf' / '-inf' are read by float())
+            s_['cols'] = [[rng.choice(['inf', '-inf']) if (v is not None and rng.random() < 0.25) else v for v in s_['cols'][0]]]
     allpts = sorted({t for s in series for t in s['ts']})
     cands = sorted(set(rng.sample(range(span), min(span, k + 3))) | set(rng.sample(allpts, min(len(allpts), k))))
     pts = sorted(rng.sample(cands, k))
